@@ -401,9 +401,11 @@ pub fn run_check(def: &'static CheckDef, opts: &RunOpts) -> i32 {
         let detail = fin.out.viols.iter().find(|v| v.class == class).map(|v| v.detail.clone()).unwrap_or_default();
         let dir = format!("{}/replays/{}", opts.verif_dir, def.id);
         let _ = std::fs::create_dir_all(&dir);
-        let path = format!("{dir}/{}-{}-{:08x}.json", opts.seed, idx, (fin.rec.log_hash ^ hash_str(&class)) as u32);
+        let build = if cfg!(feature = "spool") { "default" } else { "nospool" };
+        let path = format!("{dir}/{}-{}-{:08x}{}.json", opts.seed, idx, (fin.rec.log_hash ^ hash_str(&class)) as u32, if cfg!(feature = "spool") { "" } else { "-nospool" });
         let doc = json!({
             "property": def.id,
+            "build": build,
             "class": class,
             "seed": opts.seed,
             "run_index": idx,
